@@ -93,7 +93,7 @@ SymApi == {"simplify", "rotx", "roty", "rotz", "trotx", "troty", "trotz", "trans
            "Twist3.Rx", "Twist3.Ry", "Twist3.Rz"}
 SymExprs == {"SE3.Rx*SE3.Tx", "SE3.Rz*SE3.Ry*SE3.Rx", "(SE3.Rx*SE3.Ty).inv", "SE3.Rx*SE3.Tx*point", "SO3.Rx*SO3.Ry",
              "SO3.Rz.inv", "SO3.Rx*point", "SE3.Rx*SE3.Rx.inv", "SE3.Rz**2", "SE3.Tx/SE3.Rz"}
-SymModes == {"all-symbolic", "mixed"}
+SymModes == {"all-symbolic", "mixed", "mixed-number-first"}     \* which positions of a packed argument are plain numbers
 \* entries whose argument (or receiver) is a matrix: the symbolic matrix is composed in several ways, because a
 \* one-axis rotation has so many structural zeros that most entries of a formula are never exercised
 SymMatApi == {"trinv", "tr2delta", "tr2delta(T0,T1)", "tr2jac", "tr2jac(samebody)", "vex(R-I)", "vex(R-R')", "vexa(T-I)",
@@ -103,7 +103,7 @@ SymMatArgs == {"one-axis", "two-axis", "euler", "number-times-symbol"}
 
 FormsOf(layer) == IF layer = "base" THEN {"list", "tuple", "array", "row", "column"}
                   ELSE {"list", "tuple", "array"}
-ElemTypes == {"int", "float"}
+ElemTypes == {"int", "float", "float-with-residue"}     \* the last: floats with rounding residues (1e-16) among them
 
 \* ---- angle units, orders, separate-scalar call forms -----------------------------------
 UnitIn  == {"rotx", "roty", "rotz", "trotx", "troty", "trotz", "rot2", "trot2", "xyt2tr", "rpy2r", "rpy2tr",
